@@ -96,6 +96,15 @@ UNITS[-5]["canaries"] = [dict(name="or_is_and", where="body:or_", rx=r"c1\(\) \|
 UNITS[-3]["canaries"] = [dict(name="endtime_in_lambda", where="body:timed", rx=r"time_now\(\) > endTime", repl="time_now() >= endTime")]
 UNITS[-1]["canaries"] = [dict(name="exact_negated", where="body:exact", rx=r"RES\[k_\] = \(hasExactSolution\(\)\)", repl="RES[k_] = (!hasExactSolution())")]
 
+PL18 = "src/ompl/base/src/Planner.cpp"
+PS_RULES = [(r"timedPlannerTerminationCondition\(solveTime\)", "TIMED1(solveTime)", 0), (r"timedPlannerTerminationCondition\(solveTime, ", "TIMED2(solveTime, ", 0), (r"std::min\(", "MIND(", 0),
+            (r"PlannerTerminationCondition\(ptc, checkInterval\)", "PTC_FN(ptc, checkInterval)", 0), (r"\bsolve\(", "SOLVE(", 0)]
+UNITS.append(dict(name="c18_planner_solve_overloads", template="C18/planner_solve.c", mode="plain", entry="h_planner_solve", flags=["--bounds-check", "--pointer-check"], level="proof", backend="cadical", timeout=300,
+                  functions=["ompl::base::Planner::solve(double)", "ompl::base::Planner::solve(const PlannerTerminationConditionFn&, double)"],
+                  sources=[dict(name="solve_time", file=PL18, sig=r"ompl::base::PlannerStatus ompl::base::Planner::solve\(double solveTime\)", rules=PS_RULES, loops={}),
+                           dict(name="solve_fn", file=PL18, sig=r"ompl::base::PlannerStatus ompl::base::Planner::solve\(const PlannerTerminationConditionFn &ptc, double checkInterval\)", rules=PS_RULES, loops={})],
+                  canaries=[dict(name="polling_period_not_capped", where="body:solve_time", rx=r"MIND\(solveTime / 100\.0, 0\.1\)", repl="solveTime / 100.0")]))
+
 ASSUMPTIONS = [
     "IterationTerminationCondition: fewer than 2^32-1 evaluations (timesCalled_ is a 32-bit counter that wraps)",
     "time::now() is a monotone clock; time points/durations are modelled as 64-bit integer ticks below 2^60",
